@@ -179,8 +179,32 @@ func (m *mountedSite) run(k *kase) outcome {
 	if !set || cleared || err != nil || lu.Query().Get("state") == "" {
 		return outcome{kind: "inconclusive", err: "/start handed out no CSRF cookie / state"}
 	}
+	cookies := []string{m.csrfName + "=" + csrf}
+	if k.Browser != "" {
+		// the browser already holds an authenticator session cookie, sealed with this authenticator's cookie key
+		now := time.Now()
+		old := &sessions.SessionState{AccessToken: "old-at-" + k.code, RefreshToken: "old-rt-" + k.code, Email: k.BrowserEmail,
+			RefreshDeadline: now.Add(time.Hour).Truncate(time.Second), LifetimeDeadline: now.Add(12 * time.Hour).Truncate(time.Second)}
+		if k.Browser == "has-expired-session" {
+			old.RefreshDeadline, old.LifetimeDeadline = now.Add(-30*time.Hour).Truncate(time.Second), now.Add(-6*time.Hour).Truncate(time.Second)
+		}
+		v, err := sessions.MarshalSession(old, m.cipher)
+		if err != nil {
+			return outcome{kind: "inconclusive", err: "cannot seal a browser session cookie: " + err.Error()}
+		}
+		if k.Browser == "has-forged-session" {
+			b := []byte(v)
+			if b[len(b)/2] == 'A' {
+				b[len(b)/2] = 'B'
+			} else {
+				b[len(b)/2] = 'A'
+			}
+			v = string(b)
+		}
+		cookies = append([]string{m.cookieName + "=" + v}, cookies...)
+	}
 	rs = m.client.Do(sut.Req{Host: m.host, Target: "/" + m.slug + "/callback?code=" + url.QueryEscape(k.code) + "&state=" + url.QueryEscape(lu.Query().Get("state")),
-		Cookies: []string{m.csrfName + "=" + csrf}})
+		Cookies: cookies})
 	if rs.Err != nil {
 		if m.panics() != p0 { // != : the sut's log sink starts over when it grows large
 			return outcome{kind: "panicked", err: "client: " + clip(rs.Err.Error(), 160) + "; server error log: http: panic serving ..."}
@@ -252,7 +276,7 @@ var slowSite = map[string]string{"google": "redeem", "okta": "callback", "cognit
 func TestProp(t *testing.T) {
 	env := vh.GetEnv()
 	rep := vh.NewReport("C10", "fault_enumeration")
-	rep.Rule("per provider (google, okta, cognito) the structural answer space is ENUMERATED: token answers = 32 status codes x 3 bodies, every truncation point of the valid body, 25 body shapes, 7 access_token variants, 12 non-essential field variants, connection faults; userinfo answers (okta, cognito) likewise + e-mail(6) x email_verified(7); id_tokens (every provider; google reads the e-mail from them, for okta/cognito they sit beside a valid vouching answer and name a decoy e-mail) = segments(1..5) x base64 class(6) x email_verified(7) x e-mail(6) + segments x 9 payload shapes + 22 raw id_token values (absent, empty, null, mistyped, dots only, not-a-jwt, header-only, huge, ...); optional fields (token: token_type, expires_in, refresh_token, scope, sub; userinfo: sub, name, groups, username, ...; id_token claims) x 20 hostile shapes; decoy identities: e-mail field missing/empty/null/mistyped/unverified x an e-mail-shaped decoy in each of 13 other fields (username, preferred_username, sub, name, upn, emails[], identities[0].userId, ...) or all of them x location (token answer, id_token claims, userinfo); Email/EMAIL/eMail key spellings; then seeded random byte-level mutations of valid answers. Every case is run at two sites: provider.Redeem directly and the real authenticator /start -> /callback (e-mails, codes and tokens unique per case and site). distinct = provider|site|class|dimension values (truncation index, status, ...) or mutation target+operator sequence, counted only for cases that produced an outcome")
+	rep.Rule("per provider (google, okta, cognito) the structural answer space is ENUMERATED: token answers = 32 status codes x 3 bodies, every truncation point of the valid body, 25 body shapes, 7 access_token variants, 12 non-essential field variants, connection faults; userinfo answers (okta, cognito) likewise + e-mail(6) x email_verified(7); id_tokens (every provider; google reads the e-mail from them, for okta/cognito they sit beside a valid vouching answer and name a decoy e-mail) = segments(1..5) x base64 class(6) x email_verified(7) x e-mail(6) + segments x 9 payload shapes + 22 raw id_token values (absent, empty, null, mistyped, dots only, not-a-jwt, header-only, huge, ...); optional fields (token: token_type, expires_in, refresh_token, scope, sub; userinfo: sub, name, groups, username, ...; id_token claims) x 20 hostile shapes; decoy identities: e-mail field missing/empty/null/mistyped/unverified x an e-mail-shaped decoy in each of 13 other fields (username, preferred_username, sub, name, upn, emails[], identities[0].userId, ...) or all of them x location (token answer, id_token claims, userinfo); Email/EMAIL/eMail key spellings; browser state at /callback (live session cookie of the same / another user, expired, forged - sealed with the authenticator's cookie key) x 20 IdP answers (statuses, malformed, dropped, unverified, vouching); then seeded random byte-level mutations of valid answers. Every case is run at two sites: provider.Redeem directly and the real authenticator /start -> /callback (e-mails, codes and tokens unique per case and site). distinct = provider|site|class|dimension values (truncation index, status, ...) or mutation target+operator sequence, counted only for cases that produced an outcome")
 	rep.Assume("the scripted identity providers (the harness's own http server; for okta /callback the sut's TLS fake IdP) answer exactly as scripted; ground truth is the label the generator attached by construction, cross-checked by an independent lenient reading of the served bytes (disagreement => inconclusive)")
 	rep.Assume("verified means the JSON boolean true; 2xx statuses other than 200, byte-order marks, key-case variants, duplicate keys, padded base64url, id_tokens with 2/4/5 segments whose second segment is a valid verified payload, google answers without access_token, hostile optional fields and (okta, cognito) odd id_tokens beside a vouching userinfo answer are don't-care zones for session/no-session - never for a crash (a session there must still carry the e-mail in the answer)")
 
@@ -367,6 +391,10 @@ func TestProp(t *testing.T) {
 					rep.Count("skipped_slow_case_at_other_site", 1)
 					return
 				}
+				if k.Class == "browser" && sm.siteName != "callback" {
+					rep.Count("skipped_browser_state_at_redeem_site", 1)
+					return
+				}
 				if k.Label == lRefuse {
 					emu.Lock()
 					expectClauses[sm.prov+"|"+k.Clause] = true
@@ -408,6 +436,12 @@ func TestProp(t *testing.T) {
 		}
 		rep.Floor("truncation_points_userinfo_okta", 100)
 		rep.Floor("truncation_points_userinfo_cognito", 100)
+		for _, p := range []string{"google", "okta", "cognito"} {
+			rep.Floor("browser_state_cases_"+p, 70)
+		}
+		for _, b := range browserStates[1:] {
+			rep.Floor("browser_state_"+b, 50)
+		}
 		rep.Floor("panic_probe_http_observed", 2)
 		rep.Floor("panic_probe_recover_observed", 1)
 		rep.Floor("slow_answers_beyond_client_timeout", 3)
@@ -470,6 +504,10 @@ func judge(rep *vh.Report, stream string, k *kase, o outcome) {
 	if k.Prov == "google" && k.Class != "mutation" && k.IDSegs >= 0 {
 		rep.Count(fmt.Sprintf("google_id_token_segments_%d", k.IDSegs), 1)
 	}
+	if k.Browser != "" {
+		rep.Count("browser_state_cases_"+k.Prov, 1)
+		rep.Count("browser_state_"+k.Browser, 1)
+	}
 	switch k.Class {
 	case "tok-trunc":
 		rep.Count("truncation_points_token_"+k.Prov, 1)
@@ -508,6 +546,11 @@ func judge(rep *vh.Report, stream string, k *kase, o outcome) {
 		}
 		switch k.Label {
 		case lRefuse:
+			if k.Browser != "" {
+				rep.Violate(stream, k.Index, k.Prov+": session-cookie-set-after-provider-error browser="+k.Browser,
+					fmt.Sprintf("/callback answered %d and set a non-empty session cookie (e-mail %q) although the identity provider's answer was an error / not vouching (%s); the browser presented a session cookie for %q: %s", o.status, o.email, k.Clause, k.BrowserEmail, where), *k)
+				return
+			}
 			if k.Decoy != "" && o.email == k.Decoy {
 				rep.Violate(stream, k.Index, k.Prov+": session-for-other-email",
 					fmt.Sprintf("session for %q, an e-mail-shaped value the identity provider put in a field that does not vouch (%s), while the e-mail field itself was %s: %s", o.email, k.PClass, k.Clause, where), *k)
@@ -546,7 +589,11 @@ func judge(rep *vh.Report, stream string, k *kase, o outcome) {
 
 	case "refused":
 		if k.Site == "callback" && o.status < 400 {
-			rep.Violate(stream, k.Index, k.Prov+": refusal-without-error-status",
+			sig := k.Prov + ": refusal-without-error-status"
+			if k.Browser != "" {
+				sig += " browser=" + k.Browser
+			}
+			rep.Violate(stream, k.Index, sig,
 				fmt.Sprintf("/callback set no session but answered %d instead of an error response: %s", o.status, where), *k)
 			return
 		}
